@@ -97,6 +97,10 @@ def run(ctx):
     ctx.rule("C16-real-read-back", "finite reals of every magnitude print as text the crate's reader takes for the same binary32 number, "
                                    "still inexact (the printer's formatting calls are modelled on std's shortest-digits algorithm)")
     printtables.rule_real_readback(ctx, "C16-real-read-back")
+    ctx.rule("C16-ratio-read-back", "exact ratios of both signs, reduced or not (arithmetic does not reduce: (- 1/4 3/4) prints -8/16), print "
+                                    "as text that the reader and the interpreter's literal conversion turn into an exact number of the same "
+                                    "value (48 ratios)")
+    printtables.rule_ratio_readback(ctx, "C16-ratio-read-back")
     # characters: `#\` followed by the character itself
     m_ = printtables.Mk(fb)
     for ch in "a(1 ;\"'\\#|\t\u03bb":
